@@ -121,6 +121,9 @@ func buildPlan(id string, pinned map[string]string, tier string) *Plan {
 		for _, pk := range marshalPkgs("/repo") {
 			p.Units = append(p.Units, Unit{Pkg: pk, Tags: "", Groups: []string{"marshal"}})
 		}
+		if _, err := os.Stat("/repo/ecc/secp256k1/zz_verif_contracts_marshal.go"); err == nil {
+			p.Units = append(p.Units, Unit{Pkg: "./ecc/secp256k1", Tags: "", Groups: []string{"marshal"}})
+		}
 		for _, c := range g2MarshalCfgs("/repo") {
 			p.Units = append(p.Units, Unit{Pkg: c.Pkg, Tags: "", Groups: []string{"marshalg2"}})
 		}
@@ -138,7 +141,7 @@ func buildPlan(id string, pinned map[string]string, tier string) *Plan {
 			"Sqrt returns a square root or nil (C01 contract of Sqrt is not yet proved: assumed at this layer)"}
 		p.NotCovered = []string{"G2 decoders over an extension field: the sign selection of the recovered Y and the value Y^2 = X^3 + b' are not stated (the extension-field methods are opaque calls: the clauses say that Legendre and Sqrt were applied to the same YSquared object and that Legendre != -1)",
 			"encoders (Bytes / RawBytes) and the round trip Bytes/SetBytes: not under contract; streaming Encoder / Decoder: the slices-of-points cases of the decoder (parallel Y recovery), the reflection fallback, the byte counters and the length prefixes are not under contract (the other dynamic types are: one contract variant each)",
-			"secp256k1 (different decoder shape): not under contract; twisted Edwards decoder: the sign selection and the value of x are not stated (acceptance implies a canonical y and an existing square root), the format has no subgroup test"}
+			"twisted Edwards decoder: the sign selection and the value of x are not stated (acceptance implies a canonical y and an existing square root), the format has no subgroup test"}
 		p.Note = "G2Affine.setBytes of the 7 curves with a G2 decoder: same acceptance-implies-check clauses with all 2k (raw) / k (compressed) base-field coordinates decoded canonically (k = extension degree), the Legendre test and the square root applied to the same value. G1Affine.setBytes / unsafeSetCompressedBytes of every curve with the generated decoder: a nil error is returned only if the flag pattern is valid, the coordinates decoded canonically, infinity encodings are all-zero (every payload byte of the compressed, resp. raw, length is zero: stated over the input bytes), an uncompressed point passed the subgroup test or (when disabled) the on-curve test, a compressed point has Y = +-sqrt(X^3+b) with the sign selected by the flag and passed the subgroup test when enabled; byte counts match; short buffers give errors (no panic: all slice bounds are obligations). Streaming codecs, one contract variant per dynamic type of the value (Decoder.Decode: *[][]uint64, *[]uint64, *fr/fp.Element, *[]fr/fp.Element, *[][]fr.Element, *[][][]fr.Element, *G1Affine, *G2Affine; Encoder.encode / encodeRaw: the corresponding values and []G1Affine / []G2Affine): nil is returned only if every read / write and every element or point codec that was called returned no error (no error of an earlier item is overwritten by a later one), and a point is written as exactly the bytes its own Bytes / RawBytes returned. Twisted Edwards PointAffine.SetBytes (8 packages): total, refuses short buffers, accepts only if the y-coordinate was decoded canonically and the square root defining x exists."
 		return p
 	case "C17":
